@@ -268,7 +268,7 @@ func (gg *GenGrammar) writeHarness(spec *GramSpec) error {
 		if _, bad := gg.Broken[vn]; bad {
 			continue
 		}
-		fmt.Fprintf(&b, "\t%s %q\n", vn, gg.Pkg+"/"+vn)
+		fmt.Fprintf(&b, "\tv%s %q\n", vn, gg.Pkg+"/"+vn)
 	}
 	b.WriteString(")\n\nvar _ = hl.NSw\nvar _ = strconv.Quote\n\n")
 	fmt.Fprintf(&b, "// grammar %s (%s)\n", gg.G.Hash(), gg.G.Tag)
